@@ -64,7 +64,9 @@ class PermutingExperimenter(experimenter.Experimenter):
             ' Permuting continuous parameters is not supported.'
         )
 
-      permutation_list = self._rng.permuted(parameter.feasible_values)
+      # tolist() yields python scalars: ParameterValue rejects np.int64, which
+      # is what permuting INTEGER or integer-valued DISCRETE values produces.
+      permutation_list = self._rng.permuted(parameter.feasible_values).tolist()
       permutation_dict = {
           a: b for a, b in zip(parameter.feasible_values, permutation_list)
       }
